@@ -279,6 +279,23 @@ def format_value(ex, st, v, spec, conversion=-1):
             else:
                 raise _U()(f"format {spec} of {w!r}")
         return
+    if spec.startswith("+0") and spec.endswith("d") and spec[2:-1].isdigit():
+        # sign always shown, zero padded to the total width
+        width = int(spec[2:-1])
+        for st1, w in ex.narrow(st, v):
+            if isinstance(w, bool) or (isinstance(w, SV) and w.sort == "bool"):
+                w = SV("int", lift(w, "int")) if isinstance(w, SV) else int(w)
+            if isinstance(w, int):
+                yield st1, format(w, spec)
+            elif isinstance(w, SV) and w.sort == "int":
+                t = w.t
+                for f in pad_facts(t, max(width - 1, 1)) + pad_facts(-t, max(width - 1, 1)):
+                    axiom(f)
+                wv = z3.IntVal(max(width - 1, 1))
+                yield st1, SV("str", z3.If(t >= 0, z3.Concat(z3.StringVal("+"), PAD(t, wv)), z3.Concat(z3.StringVal("-"), PAD(-t, wv))))
+            else:
+                yield ex.raise_(st1, "TypeError" if w is None else "ValueError")
+        return
     raise _U()(f"format spec {spec!r}")
 
 
@@ -1459,6 +1476,10 @@ def isinstance_check(ex, st, ref, tp):
     v = st.deref(ref)
     name = tp.name if isinstance(tp, TypeRef) else (tp.qualname if isinstance(tp, ClassRef) else None)
     if name is None:
+        if isinstance(tp, Opaque) and isinstance(v, Opaque):
+            # dynamic class object: membership is an uninterpreted relation between value and class
+            f = ex.uf(f"isinstance_dyn_{v.kind}_{tp.kind}", z3sort(("u", v.kind)), z3sort(("u", tp.kind)), z3.BoolSort())
+            return SV("bool", f(v.t, tp.t))
         raise U(f"isinstance against {tp!r}")
     name = name.split(".")[-1]
     if isinstance(v, SV) and isinstance(v.sort, tuple) and v.sort[0] == "opt":
